@@ -35,6 +35,7 @@ CONSTANTS
   ForeignOps = {}
   MaxRefs = 2
   MaxHeld = 1
+  PoolSize = 16
   Setup = ""
 INIT Init
 NEXT Next
